@@ -72,9 +72,11 @@ func vfRenderFormat(t tabular.Table, f int) (string, error) {
 		return json.Render(t)
 	case 2:
 		return markdown.Render(t)
+	case 3:
+		return Render(t, "html")
 	}
 	tt := texttable.Wrap(t)
-	tt.SetDecorationNamed(vfDecoNames[f-3])
+	tt.SetDecorationNamed(vfDecoNames[f-4])
 	return tt.Render()
 }
 
@@ -98,9 +100,9 @@ func VerifC14_repeat() {
 	c, _ := t.CellAt(tabular.CellLocation{Row: 1, Column: 1})
 	c.SetProperty(key, 5)
 	before := vfSnapshot(t, key)
-	nf := 3 + 3 // csv, json, markdown, three decorations (quick)
+	nf := 4 + 3 // csv, json, markdown, html, three decorations (quick)
 	if vfTier() == 1 {
-		nf = 3 + len(vfDecoNames)
+		nf = 4 + len(vfDecoNames)
 	}
 	first := make([]string, nf)
 	firstErr := make([]bool, nf)
